@@ -184,8 +184,8 @@ theorem rep_in_bounds (U : M3 Int) (hU : M3.det U ≠ 0) (s : V3 K)
 
 /-- the Cartesian shift `rint(origin·V⁻¹)·V` (nearest lattice vector, `⌊x + 1/2⌋`) of `rotateRaw`. -/
 def originShift (fl : K → Int) (b : Box K) : V3 K :=
-  M3.vecMul ⟨((fl (0 - (b.cartToRel ⟨0, 0, 0⟩).x + 1 / ((2 : Int) : K)) : Int) : K), ((fl (0 - (b.cartToRel ⟨0, 0, 0⟩).y + 1 / ((2 : Int) : K)) : Int) : K),
-             ((fl (0 - (b.cartToRel ⟨0, 0, 0⟩).z + 1 / ((2 : Int) : K)) : Int) : K)⟩ b.vects
+  M3.vecMul ⟨((rintK fl (0 - (b.cartToRel ⟨0, 0, 0⟩).x) : Int) : K), ((rintK fl (0 - (b.cartToRel ⟨0, 0, 0⟩).y) : Int) : K),
+             ((rintK fl (0 - (b.cartToRel ⟨0, 0, 0⟩).z) : Int) : K)⟩ b.vects
 
 /-- replica `r` of atom `a` of the bounding supercell, as `rotateRaw` positions it. -/
 def imageOf (fl : K → Int) (b : Box K) (U : M3 Int) (a : Atom K) (r : Nat × Nat × Nat) : Atom K :=
@@ -217,13 +217,31 @@ theorem rotateRaw_singleton (fl : K → Int) (b : Box K) (U : M3 Int) (a : Atom 
   rw [rotateRaw_eq fl b U [a] hU, imagesOf]
   simp only [List.map_cons, List.map_nil, flatMap_singleton_eq_map]
 
+theorem rintK_congr (fl : K → Int) (hfl : ∀ x, fl x = ⌊x⌋) (x : K) : rintK fl x = rintK (fun x => ⌊x⌋) x := by
+  unfold rintK; simp only [hfl]
+
+/-- the nearest integer is within 1/2. -/
+theorem rintK_bounds (x : K) : x - 1 / 2 ≤ ((rintK (fun x => ⌊x⌋) x : Int) : K) ∧ ((rintK (fun x => ⌊x⌋) x : Int) : K) ≤ x + 1 / 2 := by
+  have hh : (1 : K) / ((2 : Int) : K) = 1 / 2 := by norm_num
+  unfold rintK
+  simp only [hh]
+  have h1 := Int.floor_le (x + 1 / 2)
+  have h2 := Int.lt_floor_add_one (x + 1 / 2)
+  split
+  · rename_i hc
+    simp only [Bool.and_eq_true, decide_eq_true_eq] at hc
+    have he : ((⌊x + 1 / 2⌋ : Int) : K) = x + 1 / 2 := le_antisymm hc.1.1 hc.1.2
+    push_cast
+    constructor <;> linarith
+  · constructor <;> linarith
+
 /-- offset of an atom at `p`: its relative position in the old cell plus the box origin (in cell units) reduced to
     `[-1/2, 1/2)` by the nearest lattice vector; inside `[-1/2, 3/2)³ ⊂ (-1, 2)³` for an atom inside the box
     (far faces included). -/
 noncomputable def offset (b : Box K) (p : V3 K) : V3 K :=
-  b.cartToRel p + ⟨(0 - (b.cartToRel ⟨0, 0, 0⟩).x) - ⌊0 - (b.cartToRel ⟨0, 0, 0⟩).x + 1 / ((2 : Int) : K)⌋,
-                   (0 - (b.cartToRel ⟨0, 0, 0⟩).y) - ⌊0 - (b.cartToRel ⟨0, 0, 0⟩).y + 1 / ((2 : Int) : K)⌋,
-                   (0 - (b.cartToRel ⟨0, 0, 0⟩).z) - ⌊0 - (b.cartToRel ⟨0, 0, 0⟩).z + 1 / ((2 : Int) : K)⌋⟩
+  b.cartToRel p + ⟨(0 - (b.cartToRel ⟨0, 0, 0⟩).x) - rintK (fun x => ⌊x⌋) (0 - (b.cartToRel ⟨0, 0, 0⟩).x),
+                   (0 - (b.cartToRel ⟨0, 0, 0⟩).y) - rintK (fun x => ⌊x⌋) (0 - (b.cartToRel ⟨0, 0, 0⟩).y),
+                   (0 - (b.cartToRel ⟨0, 0, 0⟩).z) - rintK (fun x => ⌊x⌋) (0 - (b.cartToRel ⟨0, 0, 0⟩).z)⟩
 
 /-- lattice shift (in old-cell units) of replica `r`. -/
 def shiftOf (U : M3 Int) (r : Nat × Nat × Nat) : V3 Int :=
@@ -239,15 +257,11 @@ theorem offset_range (b : Box K) (p : V3 K) (hp : InBox (b.cartToRel p)) :
     (-1 < (offset b p).x ∧ (offset b p).x < 2) ∧ (-1 < (offset b p).y ∧ (offset b p).y < 2) ∧
     (-1 < (offset b p).z ∧ (offset b p).z < 2) := by
   obtain ⟨a1, a2, a3, a4, a5, a6⟩ := hp
-  have hh : (1 : K) / ((2 : Int) : K) = 1 / 2 := by norm_num
-  simp only [offset, V3.add_def, hh]
-  refine ⟨⟨?_, ?_⟩, ⟨?_, ?_⟩, ⟨?_, ?_⟩⟩
-  · linarith [Int.floor_le (0 - (b.cartToRel ⟨0, 0, 0⟩).x + 1 / 2)]
-  · linarith [Int.lt_floor_add_one (0 - (b.cartToRel ⟨0, 0, 0⟩).x + 1 / 2)]
-  · linarith [Int.floor_le (0 - (b.cartToRel ⟨0, 0, 0⟩).y + 1 / 2)]
-  · linarith [Int.lt_floor_add_one (0 - (b.cartToRel ⟨0, 0, 0⟩).y + 1 / 2)]
-  · linarith [Int.floor_le (0 - (b.cartToRel ⟨0, 0, 0⟩).z + 1 / 2)]
-  · linarith [Int.lt_floor_add_one (0 - (b.cartToRel ⟨0, 0, 0⟩).z + 1 / 2)]
+  simp only [offset, V3.add_def]
+  obtain ⟨x1, x2⟩ := rintK_bounds (0 - (b.cartToRel ⟨0, 0, 0⟩).x)
+  obtain ⟨y1, y2⟩ := rintK_bounds (0 - (b.cartToRel ⟨0, 0, 0⟩).y)
+  obtain ⟨z1, z2⟩ := rintK_bounds (0 - (b.cartToRel ⟨0, 0, 0⟩).z)
+  refine ⟨⟨?_, ?_⟩, ⟨?_, ?_⟩, ⟨?_, ?_⟩⟩ <;> linarith
 
 /-- the position of image `r`, in old-cell units about the Cartesian origin, is `offset + shiftOf r`. -/
 theorem imageOf_pos (fl : K → Int) (hfl : ∀ x, fl x = ⌊x⌋) (b : Box K) (hV : M3.det b.vects ≠ 0) (U : M3 Int)
@@ -261,7 +275,7 @@ theorem imageOf_pos (fl : K → Int) (hfl : ∀ x, fl x = ⌊x⌋) (b : Box K) (
   rw [replicaPos_eq_aux b _ _ _ a.pos r.1 r.2.1 r.2.2 hV c0 c1 c2]
   have hp := relToCart_cartToRel b hV a.pos
   have ho := relToCart_cartToRel b hV ⟨0, 0, 0⟩
-  simp only [originShift, offset, hfl]
+  simp only [originShift, offset, rintK_congr fl hfl]
   generalize b.cartToRel a.pos = s at hp ⊢
   generalize b.cartToRel ⟨0, 0, 0⟩ = o at ho ⊢
   have hpx := congrArg V3.x hp; have hpy := congrArg V3.y hp; have hpz := congrArg V3.z hp
@@ -385,7 +399,7 @@ theorem imagesOf_complete (fl : K → Int) (hfl : ∀ x, fl x = ⌊x⌋) (b : Bo
     (hq : InCell ((⟨newVects U b.vects, ⟨0, 0, 0⟩⟩ : Box K).cartToRel (a.pos + M3.vecMul (castV n) b.vects))) :
     ∃ a' ∈ imagesOf fl b U a, a'.pos = a.pos + M3.vecMul (castV n) b.vects ∧ a'.atype = a.atype ∧ a'.extra = a.extra := by
   -- the integer shift of `rotateRaw`
-  set f : V3 Int := ⟨⌊0 - (b.cartToRel ⟨0, 0, 0⟩).x + 1 / ((2 : Int) : K)⌋, ⌊0 - (b.cartToRel ⟨0, 0, 0⟩).y + 1 / ((2 : Int) : K)⌋, ⌊0 - (b.cartToRel ⟨0, 0, 0⟩).z + 1 / ((2 : Int) : K)⌋⟩
+  set f : V3 Int := ⟨rintK (fun x => ⌊x⌋) (0 - (b.cartToRel ⟨0, 0, 0⟩).x), rintK (fun x => ⌊x⌋) (0 - (b.cartToRel ⟨0, 0, 0⟩).y), rintK (fun x => ⌊x⌋) (0 - (b.cartToRel ⟨0, 0, 0⟩).z)⟩
     with hf
   have hpos : a.pos + M3.vecMul (castV n) b.vects = M3.vecMul (offset b a.pos + castV (n + f)) b.vects := by
     have hp := relToCart_cartToRel b hV a.pos
